@@ -5,6 +5,7 @@ import (
 	"errors"
 	"fmt"
 	"io"
+	os2 "os"
 	"reflect"
 	"strings"
 
@@ -26,7 +27,7 @@ func init() {
 			return 720
 		},
 		Batch: func(t string) int { return 30 },
-		Floors: []string{"projections_checked", "via_reader_with_schema", "via_convert_rowgroup_rows", "via_convert_row_reader", "via_copy_rows", "via_merge_with_schema", "via_convert_rowgroup_chunks", "edit_delete", "edit_permute", "edit_add_optional",
+		Floors: []string{"projections_checked", "via_reader_with_schema", "via_convert_rowgroup_rows", "via_convert_row_reader", "via_copy_rows", "via_merge_with_schema", "via_convert_rowgroup_chunks", "via_sorted_merge_with_schema", "edit_delete", "edit_permute", "edit_add_optional",
 			"edit_add_required", "edit_inside_list", "edit_inside_group", "edit_inside_map_value", "incompatible_probed"},
 		Rule: "case = (source catalogue type with nested groups, lists of groups and maps; target struct type derived at run time (reflect.StructOf) by <= 4 edits at any depth: delete a field, permute fields, add an optional (pointer) field, add a required field, incl. inside list elements, nested groups and map values; " +
 			"rows with null patterns at every ancestor). The rows are read through NewReader(file, targetSchema), ConvertRowGroup (rows and column chunks), ConvertRowReader, CopyRows and MergeRowGroups(schema). Oracle: a reflection-based projection of the source value - common fields identical, added fields nil/zero, " +
@@ -213,17 +214,46 @@ func runC12(c *Ctx) {
 	rows := genRows(r, te, n, genOpts{NoHuge: true, SmallLists: true})
 	ed := &c12edits{r: r, budget: 1 + r.Intn(4), obs: map[string]bool{}}
 	dstType := ed.derive(te.Type, "group")
-	via := []string{"reader_with_schema", "convert_rowgroup_rows", "convert_row_reader", "copy_rows", "merge_with_schema", "convert_rowgroup_chunks"}[c.Case%6]
+	via := []string{"reader_with_schema", "convert_rowgroup_rows", "convert_row_reader", "copy_rows", "merge_with_schema", "convert_rowgroup_chunks", "sorted_merge_with_schema"}[c.Case%7]
+	if via == "sorted_merge_with_schema" {
+		// two sorted files that overlap only partially, with long lone stretches and small
+		// misaligned pages: the merge planner slices row-range views of converted row groups
+		n = gen.Pick(r, []int{2400, 3600})
+		rows = genRows(r, te, n, genOpts{NoHuge: true, SmallLists: true})
+	}
 	c.D("type", te.Name)
 	c.D("rows", n)
 	c.D("edits", strings.Join(ed.log, "; "))
 	c.D("via", via)
 	keys := map[string]any{"via": via, "type": te.Name}
+	for _, l := range ed.log {
+		if strings.HasPrefix(l, "add ") && (strings.HasSuffix(l, " in list") || strings.HasSuffix(l, " in map_value")) {
+			keys["added_in_repeated"] = true
+		}
+	}
 	if len(ed.log) == 0 {
 		c.Trivial()
 	}
 	for k := range ed.obs {
 		c.Obs(k, 1)
+	}
+	var sortedParts [][]byte
+	if via == "sorted_merge_with_schema" {
+		// file A holds ids [0, 0.6n), file B ids [0.4n, n): rows carry ID == index
+		sorting := parquet.SortingWriterConfig(parquet.SortingColumns(parquet.Ascending("id")))
+		for _, span := range [][2]int{{0, n * 6 / 10}, {n * 4 / 10, n}} {
+			part := rows.Slice(span[0], span[1])
+			var ops []wop
+			for lo := 0; lo < part.Len(); lo += 7 {
+				ops = append(ops, wop{Lo: lo, Hi: min(part.Len(), lo+7)})
+			}
+			b, err := writeTyped(te, part, ops, []parquet.WriterOption{sorting, parquet.PageBufferSize(512)})
+			if err != nil {
+				c.Fail("harness.write", nil, "%v", err)
+				return
+			}
+			sortedParts = append(sortedParts, b)
+		}
 	}
 	data, err := writeTyped(te, rows, genWriteHist(r, n), []parquet.WriterOption{parquet.PageBufferSize(gen.Pick(r, []int{256, 65536})), parquet.MaxRowsPerRowGroup(int64(gen.Pick(r, []int{7, 1000})))})
 	if err != nil {
@@ -316,6 +346,53 @@ func runC12(c *Ctx) {
 				}
 				reconstruct(prows)
 			}
+		case "sorted_merge_with_schema":
+			var rgs []parquet.RowGroup
+			for _, b := range sortedParts {
+				pf, err := openBytes(b)
+				if err != nil {
+					rerr = err
+					return
+				}
+				rgs = append(rgs, pf.RowGroups()...)
+			}
+			if os2.Getenv("VERIF_NOREFINE") != "" {
+				parquet.VerifDisableMergeRefinement(true)
+			}
+			m, err := parquet.MergeRowGroups(rgs, dstSchema, parquet.SortingRowGroupConfig(parquet.SortingColumns(parquet.Ascending("id"))))
+			if err != nil {
+				rerr = err
+				return
+			}
+			prows, err := rowGroupRows(m, gen.Pick(r, []int{7, 64, 1000}))
+			if err != nil {
+				rerr = err
+				return
+			}
+			// the overlap [0.4n, 0.6n) is present in both inputs: drop the second copy of each id
+			p0 := reflect.New(dstType)
+			var last int64 = -1
+			for _, pr := range prows {
+				if err := dstSchema.Reconstruct(p0.Interface(), pr); err != nil {
+					rerr = fmt.Errorf("Reconstruct: %w", err)
+					return
+				}
+				id := flatFieldValues(p0.Elem())["id"].Int()
+				if id == last {
+					continue
+				}
+				if id < last {
+					rerr = fmt.Errorf("merge output not sorted by id: %d after %d", id, last)
+					return
+				}
+				last = id
+				cp := reflect.New(dstType)
+				if err := dstSchema.Reconstruct(cp.Interface(), pr); err != nil {
+					rerr = err
+					return
+				}
+				got = reflect.Append(got, cp.Elem())
+			}
 		case "merge_with_schema":
 			m, err := parquet.MergeRowGroups(f.RowGroups(), dstSchema)
 			if err != nil {
@@ -343,7 +420,7 @@ func runC12(c *Ctx) {
 	for i := 0; i < n; i++ {
 		want := project(rows.Index(i), dstType)
 		if ok, diff := eqNorm(want, got.Index(i), ""); !ok {
-			keys["added_required"] = ed.obs["edit_add_required"]
+			keys["added_column"] = ed.obs["edit_add_required"] || ed.obs["edit_add_optional"]
 			if strings.Contains(diff, ": nil ") {
 				keys["diff_kind"] = "group_nullness"
 			} else {
